@@ -61,13 +61,14 @@ def gen_cases(ck, nprog):
     cases, meta = [], []
     feats, kinds = {}, {}
     for i in range(nprog):
-        g = gen_lua.ErrorGen(ck.rng.fork())
+        g = gen_lua.ErrorGen(ck.rng.fork(), base.open_finding_profile())
         body, tuples, f = g.program()
         for k, v in f.items():
             feats[k] = feats.get(k, 0) + v
         gen_lua.count_kinds(body, kinds)
         for j in range(2):
-            cases.append({"ast": body, "style": (i + j * 2 + (i // 4)) % len(gen_lua.STYLES), "args": [], "rseed": ck.rng.next() & 0xFFFFFFF})
+            cases.append({"ast": body, "style": (i + j * 2 + (i // 4)) % len(gen_lua.STYLES), "args": [], "rseed": ck.rng.next() & 0xFFFFFFF,
+                          "eol": gen_lua.EOLS[(i + j + i // 5) % 4]})
             meta.append(i)
     return cases, meta, feats, kinds
 
